@@ -33,6 +33,7 @@ RULE = (
     "MystWarnings member, a catalogue literal, or an explicit non-myst type. Non-trivial: >= 2 distinct tags present "
     "and the suppress list matches some but not all warnings; distinct by (document, suppress list)."
 )
+RULE += (' The Sphinx front end runs with keep_warnings so that system messages are observable in its doctree.')
 ASSUMPTIONS = [
     "'every catalogue warning is emitted' is read as 'whenever emitted, tagged': render (foreign plugin), html "
     "(unreachable parse failure), xref_ambiguous / domains (need a second domain object / a legacy domain) are not "
@@ -193,6 +194,20 @@ def strip_suppressed(doc, S):
     return doc
 
 
+def _from_option_string(value: str):
+    """What docutils makes of --myst-suppress-warnings=<value> (its option parser runs the setting's validator)."""
+    import warnings
+
+    from docutils.frontend import OptionParser
+
+    from myst_parser.parsers.docutils_ import Parser
+
+    with warnings.catch_warnings():
+        warnings.simplefilter("ignore")
+        values = OptionParser(components=(Parser,), read_config_files=False).parse_args([f"--myst-suppress-warnings={value}"])
+    return values.myst_suppress_warnings
+
+
 def check_case(acc, case, project=None) -> list[dict]:
     mk = (acc or Acc(PROPERTY, "replay")).violation
     tmp = tempfile.mkdtemp(prefix="verif-c14-")
@@ -205,8 +220,11 @@ def check_case(acc, case, project=None) -> list[dict]:
         src = os.path.join(tmp, "main.md")
         try:
             if frontend == "docutils":
+                S_run = S
+                if case.get("sep"):
+                    S_run = _from_option_string(case["sep"].join(S))
                 d0, w0 = front.docutils_publish(text, source_path=src, settings={**settings, "myst_suppress_warnings": []})
-                d1, w1 = front.docutils_publish(text, source_path=src, settings={**settings, "myst_suppress_warnings": S})
+                d1, w1 = front.docutils_publish(text, source_path=src, settings={**settings, "myst_suppress_warnings": S_run})
             else:
                 from myst_parser.config.main import MdParserConfig
 
@@ -322,7 +340,11 @@ def case_st(draw, sphinx=False):
                             "deprecated": "deprecated"}[s])
     pool = sorted(poss) + ["myst", "myst.*", "ref", "ref.*", "docutils", "myst.nosuch", "other.thing", "ref.footnote", "myst.header"]
     S = draw(st.lists(st.sampled_from(pool), max_size=4, unique=True))
-    return {"items": items, "special": special, "suppress": S}
+    case = {"items": items, "special": special, "suppress": S}
+    if not sphinx and len(S) >= 2 and draw(st.booleans()):
+        # the setting written as docutils' users write it: one comma-separated string on the command line / in docutils.conf
+        case["sep"] = draw(st.sampled_from([",", ", ", " , ", ",  ", " ,"]))
+    return case
 
 
 def sub_random(acc, shard, nshards, tier, seed):
